@@ -577,7 +577,7 @@ def fdepsd(
     LF = freq.size
     dT = 1 / sr
     pi = np.pi
-    Wn = 2 * pi * freq
+    Wn = 2 * pi * freq.astype(float)
     parallel, ncpu = srs._process_parallel(
         parallel, LF, sig.size, maxcpu, getresp=False
     )
